@@ -236,7 +236,7 @@ func sizeFlagRule(c *Ctx, fnName string, want bool, what string) {
 		return
 	}
 	calls := 0
-	for _, b := range fn.Blocks {
+	for _, b := range blocksWithCallees(fn) {
 		for _, in := range b.Instrs {
 			call, ok := in.(*ssa.Call)
 			if !ok {
@@ -249,7 +249,8 @@ func sizeFlagRule(c *Ctx, fnName string, want bool, what string) {
 			calls++
 			hdr := call.Call.Args[0]
 			ok2 := false
-			for _, b2 := range fn.Blocks {
+			// the flag is set in the function that serialises the header (Unmarshal itself or a helper)
+			for _, b2 := range call.Parent().Blocks {
 				for _, in2 := range b2.Instrs {
 					st, isSt := in2.(*ssa.Store)
 					if !isSt {
